@@ -47,3 +47,27 @@ fn ol_redc_window(m: &[u64; 2 * MINT_WORDS], sz: usize) -> (r: [u64; MINT_WORDS]
 }
 
 } // verus!
+
+verus! {
+/// R4 outlining of `xx[..MINT_WORDS].copy_from_slice(&x.0)` (range-indexed copy has no Verus spec). Trusted contract.
+#[verifier::external_body]
+fn ol_copy_low8(xx: &mut [u64; 2 * MINT_WORDS], x: &[u64; MINT_WORDS])
+    ensures final(xx)@ == x@ + old(xx)@.skip(8)
+{
+    xx[..MINT_WORDS].copy_from_slice(x);
+}
+
+/// `impl From<MInt> for Uint` (zero-extends the 8 words) and `MInt::from_uint` (low 8 words): trusted contracts,
+/// both bodies are a `copy_from_slice` over a range.
+pub assume_specification [<Uint as core::convert::From<MInt>>::from] (m: MInt) -> (r: Uint)
+    ensures uv(r) == limbs(m.0@);
+pub assume_specification [MInt::from_uint] (n: Uint) -> (r: MInt)
+    ensures r.0@ == udigits(n).take(8);
+
+impl ZmodN {
+    /// m is the Montgomery form of the residue v:  m = v*R mod n
+    pub open spec fn repr(&self, m: MInt, v: nat) -> bool {
+        m.val() < self.nval() && cong(m.val() as int, (v * self.rr()) as int, self.nval() as int)
+    }
+}
+} // verus!
